@@ -25,6 +25,7 @@ type Plan struct {
 	Fine     bool
 	Race     bool
 	Kind     string // "sched" (default) or "seq"
+	NoIter   bool   // explore directly at the bound (deviation budget not tied to the preemption bound)
 	Weight   float64
 }
 
@@ -472,6 +473,9 @@ func runJob(work, tier string, i int, plan Plan, bin, variant string, secs int, 
 	outf := filepath.Join(work, fmt.Sprintf("out-%d-%d.json", i, time.Now().UnixNano()%1000000))
 	args := []string{"-scenario", plan.Scenario, "-variant", variant, "-tier", tier,
 		"-pb", strconv.Itoa(plan.PB), "-db", strconv.Itoa(plan.DB), "-deadline", strconv.Itoa(secs), "-out", outf}
+	if plan.NoIter {
+		args = append(args, "-iterate=false")
+	}
 	cmd := exec.Command(bin, args...)
 	cmd.Dir = work
 	cmd.Env = append(env(), "GOMAXPROCS=1", "GORACE=halt_on_error=0 log_path="+filepath.Join(work, fmt.Sprintf("race-%d", i)))
